@@ -131,6 +131,39 @@ func init() {
 	addSpace("t3tiny", func() []expr.Expr { return ir.Collect(leaves2(), spaces["t2tiny"].get(), ws12) })
 	addSpace("gadget", gadgetSpace)
 	addSpace("wide", wideSpace)
+	// twin conditionals: Binary(op, L1, L2) where both operands are conditionals on the SAME outer
+	// condition whose arms hold further, independent conditionals (5..7 internal nodes); also as
+	// a memory-load address and as Less branches
+	addSpace("twin", func() []expr.Expr {
+		r := func(k string) expr.Expr { return expr.NewRegLoad(expr.Key(k), 2) }
+		k := func(v uint64) expr.Expr { return ir.ConstU(v, 2) }
+		outer := func(t, f expr.Expr, w expr.Width) expr.Expr { return expr.NewLess(r("r1"), r("r2"), t, f, w) }
+		in1 := func(a, b uint64) expr.Expr { return expr.NewLess(r("r3"), r("r4"), k(a), k(b), 2) }
+		in2 := func(a, b uint64) expr.Expr { return expr.NewLess(r("r5"), r("r6"), k(a), k(b), 2) }
+		var arms1 = []expr.Expr{in1(0x1000, 0x2000), k(0x3000), expr.NewBinary(expr.Add, in1(0x100, 0x200), k(1), 2)}
+		var arms2 = []expr.Expr{in2(0x10, 0x20), k(0x30), expr.NewBinary(expr.Add, in2(1, 2), k(4), 2)}
+		var ls1, ls2 []expr.Expr
+		for _, t := range arms1 {
+			for _, f := range arms1 {
+				ls1 = append(ls1, outer(t, f, 2), outer(t, f, 3))
+			}
+		}
+		for _, t := range arms2 {
+			for _, f := range arms2 {
+				ls2 = append(ls2, outer(t, f, 2), expr.NewLess(r("r2"), r("r1"), t, f, 2))
+			}
+		}
+		var out []expr.Expr
+		for _, a := range ls1 {
+			for _, b := range ls2 {
+				for _, op := range []expr.BinaryOp{expr.Add, expr.Nand, expr.Mul} {
+					out = append(out, expr.NewBinary(op, a, b, 3))
+				}
+				out = append(out, expr.NewMemLoad("mem", expr.NewBinary(expr.Add, a, b, 2), 2), expr.NewLess(r("r3"), r("r5"), a, b, 2))
+			}
+		}
+		return out
+	})
 	// constants only: everything must fold to one constant
 	addSpace("const2", func() []expr.Expr {
 		cl := []expr.Expr{ir.ConstU(0, 1), ir.ConstU(3, 1), ir.ConstU(0xff, 1), ir.ConstU(0x0100, 2), ir.ConstU(0xfffe, 2), ir.ConstU(0x010203, 3)}
@@ -186,12 +219,35 @@ func forTrees(r *eng.Run, names []string, f func(ref treeRef, e expr.Expr)) {
 type valuation struct {
 	R1, R2 uint64
 	Seed   uint64
+	// Regs: explicit values of further registers (r3..r6); others are derived.
+	Regs map[string]uint64
 }
 
 var valuations = []valuation{
-	{0, 0, 1}, {1, 0xff, 1}, {0xff, 1, 2}, {0x100, 0x80, 1}, {0xffff, 0xffff, 3},
-	{0x10000, 2, 1}, {0xffffff, 0x7f, 4}, {0xffffffff, 0xfe, 1}, {0x01020304050607, 3, 5},
+	{R1: 0, R2: 0, Seed: 1}, {R1: 1, R2: 0xff, Seed: 1}, {R1: 0xff, R2: 1, Seed: 2}, {R1: 0x100, R2: 0x80, Seed: 1}, {R1: 0xffff, R2: 0xffff, Seed: 3},
+	{R1: 0x10000, R2: 2, Seed: 1}, {R1: 0xffffff, R2: 0x7f, Seed: 4}, {R1: 0xffffffff, R2: 0xfe, Seed: 1}, {R1: 0x01020304050607, R2: 3, Seed: 5},
 }
+
+// twinValuations: every combination of (r1<r2?), (r3<r4?), (r5<r6?) plus r3<r5?.
+var twinValuations = func() []valuation {
+	var out []valuation
+	for m := 0; m < 16; m++ {
+		pick := func(bit int, lo, hi uint64) (uint64, uint64) {
+			if m>>bit&1 == 1 {
+				return lo, hi
+			}
+			return hi, lo
+		}
+		a, b := pick(0, 1, 9)
+		c, d := pick(1, 2, 7)
+		e, f := pick(2, 3, 8)
+		if m>>3&1 == 1 {
+			c, d, e, f = c+10, d+10, e, f
+		}
+		out = append(out, valuation{R1: a, R2: b, Seed: uint64(m + 1), Regs: map[string]uint64{"r3": c, "r4": d, "r5": e, "r6": f}})
+	}
+	return out
+}()
 
 func (v valuation) env() *ir.Env {
 	return &ir.Env{
@@ -201,6 +257,9 @@ func (v valuation) env() *ir.Env {
 				return new(big.Int).SetUint64(v.R1)
 			case "r2":
 				return new(big.Int).SetUint64(v.R2)
+			}
+			if x, ok := v.Regs[string(k)]; ok {
+				return new(big.Int).SetUint64(x)
 			}
 			// any other register: derived value
 			h := uint64(0)
